@@ -679,6 +679,8 @@ def r9_doc_layer_hash_order(ctx):
 
 
 def check(ctx):
+    from .persist_common import writer_replaces_the_whole_file
+    writer_replaces_the_whole_file(ctx, 'C10.R10', '')
     r8_comparison_covers_everything(ctx)
     r1_hash_order(ctx)
     r2_single_writer(ctx)
